@@ -54,6 +54,7 @@ func NewServer(parse ParseFn, options ...OptionFn) (*Server, error) {
 // Server contains options for listening to an address.
 type Server struct {
 	closing         atomic.Bool
+	mu              sync.RWMutex // guards closing against the admission of new commands
 	wg              sync.WaitGroup
 	logger          *slog.Logger
 	types           *pgtype.Map
@@ -87,6 +88,10 @@ func (srv *Server) ListenAndServe(address string) error {
 // preconfigured configurations. The given listener will be closed once the
 // server is gracefully closed.
 func (srv *Server) Serve(listener net.Listener) error {
+	// NOTE: closing the server waits until the accept loop has been stopped
+	// and this method is about to return.
+	srv.wg.Add(1)
+	defer srv.wg.Done()
 	defer srv.logger.Info("closing server")
 
 	srv.logger.Info("serving incoming connections", slog.String("addr", listener.Addr().String()))
@@ -183,14 +188,20 @@ func (srv *Server) serve(ctx context.Context, conn net.Conn) error {
 
 // Close gracefully closes the underlaying Postgres server.
 func (srv *Server) Close() error {
-	if srv.closing.Load() {
-		return nil
+	// NOTE: the closing flag is raised while holding the lock. No command is
+	// able to pass the admission check (see consumeSingleCommand) without being
+	// registered inside the wait group once the lock has been released, and the
+	// closer channel is closed exactly once no matter how many times or from
+	// how many goroutines Close is called.
+	srv.mu.Lock()
+	if !srv.closing.Load() {
+		verifPoint("close.checked")
+		srv.closing.Store(true)
+		close(srv.closer)
+		verifPoint("close.closed")
 	}
+	srv.mu.Unlock()
 
-	verifPoint("close.checked")
-	srv.closing.Store(true)
-	close(srv.closer)
-	verifPoint("close.closed")
 	srv.wg.Wait()
 	verifPoint("close.waited")
 	return nil
